@@ -46,6 +46,8 @@ inductive Op
   | get | ex | set (v : Val) (ttl : Nat) | del
   | getl | app (x : Nat) | rem (x : Nat)
   | incr | exp (ttl : Nat)
+  | setnx (v : Val) (ttl : Nat)          -- SetNX (cache tier of the key, atomic in the tier)
+  | hset (v : Val) | hget | hdel         -- SetHash/GetHash/DeleteHash of one field (the case key is `key:field`)
   | wbk
   deriving DecidableEq, Repr, Inhabited
 
@@ -74,9 +76,10 @@ structure Thread where
   res : Option Res := none     -- set when the call has returned
   cver : Option Nat := none    -- ghost: number of the commit this call performed
   rver : Option Nat := none    -- ghost: version of the content a read returned
+  node : Nat := 0              -- the facade instance (cluster node) the call is issued on: 0 or 1
   deriving Repr, Inhabited
 
-inductive Act | get | ex | set (v : Val) (ttl : Nat) | del | incr
+inductive Act | get | ex | set (v : Val) (ttl : Nat) | del | incr | setnx (v : Val) (ttl : Nat)
   deriving DecidableEq, Repr
 inductive Outc | miss | hit (v : Val) | ok | fail | b (x : Bool)
   deriving DecidableEq, Repr
@@ -89,13 +92,17 @@ structure Ev where
   out : Outc
   deriving DecidableEq, Repr
 
-/-- Shared state: the three cells of the key, the key lock, the commit counter. -/
+/-- Shared state: the cells of the key (local cache and key lock of node 0, shared cache, persistent tier;
+`c1`/`lock1`: local cache and key lock of a second node on the same shared cache and persistent tier),
+the commit counter. -/
 structure St where
   c : Cell := {}
   s : Cell := {}
   p : Cell := {}
   lock : Option Nat := none
   nver : Nat := 0
+  c1 : Cell := {}
+  lock1 : Option Nat := none
   deriving Repr, Inhabited
 
 def St.cell (σ : St) : Tier → Cell
@@ -114,7 +121,8 @@ structure Route where
   cat : Nat
   ck : Tier          -- cache tier used by Get/Set/Delete/Exists and the list operations
   pe : Bool          -- the persistent tier takes part
-  aux : Tier         -- tier used by Incr / SetExpiration (`cacheTierFor`)
+  aux : Tier         -- tier used by Incr / SetExpiration / the hash methods (`cacheTierFor`)
+  hashTTL : Nat      -- TTL of SetHash (DefaultCacheTTL)
   swallow : Bool     -- `Set` only logs a cache error (setPersistent / setSharedPersistent)
   passErr : Bool     -- `Get`/`Exists` hand a cache error to the caller (pure shared data)
   dfl : Nat          -- TTL that `Set` substitutes for ttl = 0
@@ -133,6 +141,7 @@ def route (h : Storage) (key : String) : Route :=
           else (h.cache).getD .cache
     pe := (isP || isSP) && h.config.EnablePersistent
     aux := (Storage.cacheTierFor h key).getD .cache
+    hashTTL := h.config.DefaultCacheTTL
     swallow := isP || isSP
     passErr := isS
     dfl := if isP then h.config.PersistentCacheTTL else if isSP then h.config.SharedCacheTTL
@@ -369,6 +378,36 @@ def stepThread (lk : Bool) (R : Route) (tid : Nat) (ft : Option Tier) (σ : St) 
     else
       { st := unlock (σ.setCell R.aux ⟨some v, ttl, ver⟩), th := finish th .ok,
         evs := [⟨tid, R.aux, .set v ttl, .ok⟩] }
+  -- SetNX (atomic set-if-absent of the cache tier of the key, `cacheTierFor`; no key lock) -------------------------
+  | .setnx v ttl, .start =>
+    let cc := σ.cell R.aux
+    if fails ft R.aux then { st := σ, th := finish th .err, evs := [⟨tid, R.aux, .setnx v ttl, .fail⟩] }
+    else
+      match cc.val with
+      | some _ => { st := σ, th := finish th (.bool false), evs := [⟨tid, R.aux, .setnx v ttl, .b false⟩] }
+      | none =>
+        let n := σ.nver + 1
+        { st := { σ with nver := n }.setCell R.aux ⟨some v, ttl, n⟩,
+          th := { finish th (.bool true) with cver := some n }, evs := [⟨tid, R.aux, .setnx v ttl, .b true⟩] }
+  -- SetHash / GetHash / DeleteHash (cache tier of the field key only, no key lock) ----------------------
+  | .hset v, .start =>
+    if fails ft R.aux then { st := σ, th := finish th .err, evs := [⟨tid, R.aux, .set v R.hashTTL, .fail⟩] }
+    else
+      let n := σ.nver + 1
+      { st := { σ with nver := n }.setCell R.aux ⟨some v, R.hashTTL, n⟩,
+        th := { finish th .ok with cver := some n }, evs := [⟨tid, R.aux, .set v R.hashTTL, .ok⟩] }
+  | .hget, .start =>
+    if fails ft R.aux then { st := σ, th := finish th .err, evs := [⟨tid, R.aux, .get, .fail⟩] }
+    else
+      match (σ.cell R.aux).val with
+      | some v => { st := σ, th := finish th (.val v), evs := [⟨tid, R.aux, .get, .hit v⟩] }
+      | none => { st := σ, th := finish th .nf, evs := [⟨tid, R.aux, .get, .miss⟩] }
+  | .hdel, .start =>
+    if fails ft R.aux then { st := σ, th := finish th .err, evs := [⟨tid, R.aux, .del, .fail⟩] }
+    else
+      let n := σ.nver + 1
+      { st := { σ with nver := n }.setCell R.aux ⟨none, 0, n⟩,
+        th := { finish th .ok with cver := some n }, evs := [⟨tid, R.aux, .del, .ok⟩] }
   -- unreachable combinations: the call is over -----------------------------------------------------
   | _, _ => { st := σ, th := { th with pc := .done } }
 
@@ -392,25 +431,40 @@ structure Cfg where
   deriving Repr, Inhabited
 
 /-- A schedule entry: which thread performs its next tier operation, and the tier whose
-operation fails at this step (if the step addresses it). -/
+operation fails at this step (if the step addresses it).  With `evict = some t` the entry is an
+environment step instead: the cache tier `t` (local cache of node `tid` for `t = .cache`) drops its entry
+of the key (TTL expiry, eviction, cache restart). -/
 structure Entry where
   tid : Nat
   fault : Option Tier := none
+  evict : Option Tier := none
   deriving Repr, DecidableEq
 
 def Variant.lk : Variant → Bool
   | .repaired => true
   | .asFound => false
 
+/-- The state as node 1 sees it: its own local cache and key lock in the places of node 0's. -/
+def swapN (σ : St) : St := { σ with c := σ.c1, c1 := σ.c, lock := σ.lock1, lock1 := σ.lock }
+
+def view (n : Nat) (σ : St) : St := if n = 0 then σ else swapN σ
+
+/-- A cache tier loses its entry (the version tag of the cell is kept). -/
+def evictCell (n : Nat) (t : Tier) (σ : St) : St :=
+  view n ((view n σ).setCell t ⟨none, 0, ((view n σ).cell t).ver⟩)
+
 def stepCfg (V : Variant) (R : Route) (cfg : Cfg) (e : Entry) : Cfg :=
+  match e.evict with
+  | some t => { cfg with st := evictCell e.tid t cfg.st, now := cfg.now + 1 }
+  | none =>
   match cfg.threads[e.tid]? with
   | none => { cfg with now := cfg.now + 1 }
   | some th =>
-    if enabled V.lk cfg.st e.tid th then
+    if enabled V.lk (view th.node cfg.st) e.tid th then
       let th0 := { th with inv := some (th.inv.getD cfg.now), ret := some cfg.now }
-      let o := stepThread V.lk R e.tid e.fault cfg.st th0
-      { st := o.st
-        threads := (cfg.threads.set e.tid o.th) ++ o.spawn.toList
+      let o := stepThread V.lk R e.tid e.fault (view th.node cfg.st) th0
+      { st := view th.node o.st
+        threads := (cfg.threads.set e.tid o.th) ++ (o.spawn.map (fun t => { t with node := th.node })).toList
         now := cfg.now + 1
         trace := o.evs.reverse ++ cfg.trace }
     else { cfg with now := cfg.now + 1 }
@@ -422,6 +476,16 @@ def run (V : Variant) (R : Route) (cfg : Cfg) (sch : List Entry) : Cfg :=
 def initCfg (c s p : Option Val) (ops : List Op) : Cfg :=
   { st := { c := ⟨c, 0, 0⟩, s := ⟨s, 0, 0⟩, p := ⟨p, 0, 0⟩ }
     threads := ops.map (fun o => { op := o }) }
+
+/-- Threads of a case: call `i` is issued on node `nodes[i]` (node 0 when the list is shorter). -/
+def mkThreads : List Op → List Nat → List Thread
+  | [], _ => []
+  | o :: os, ns => { op := o, node := ns.headD 0 } :: mkThreads os ns.tail
+
+/-- Initial configuration of a two-node case (node 1 starts with an empty local cache). -/
+def initCfgN (c s p : Option Val) (ops : List Op) (nodes : List Nat) : Cfg :=
+  { st := { c := ⟨c, 0, 0⟩, s := ⟨s, 0, 0⟩, p := ⟨p, 0, 0⟩ }
+    threads := mkThreads ops nodes }
 
 /-- What a sequential `Get` issued after everything has returned sees (no write-back modelled:
 the tiers' contents are reported before it runs). -/
@@ -448,16 +512,26 @@ structure Obs where
   fin : Option Val × Option Val × Option Val   -- cache, shared, persistent
   fget : Res
   trace : List Ev                              -- in execution order
+  fin1 : Option Val := none                    -- local cache of node 1
+  fget1 : Res := .nf                           -- final sequential `Get` on node 1
   deriving Repr
 
 def obsOf (R : Route) (cfg : Cfg) : Obs :=
   { ths := cfg.threads.map (fun t => ⟨t.op, t.inv.getD 0, t.ret.getD 0, t.res⟩)
     fin := (cfg.st.c.val, cfg.st.s.val, cfg.st.p.val)
     fget := finalGet R cfg.st
-    trace := cfg.trace.reverse }
+    trace := cfg.trace.reverse
+    fin1 := cfg.st.c1.val
+    fget1 := finalGet R (swapN cfg.st) }
 
 /-- The model: run the schedule, report what an observer sees. -/
 def model (V : Variant) (R : Route) (c s p : Option Val) (ops : List Op) (sch : List Entry) : Obs :=
   obsOf R (run V R (initCfg c s p ops) sch)
+
+
+/-- The model of a case whose calls are spread over two nodes. -/
+def modelN (V : Variant) (R : Route) (c s p : Option Val) (ops : List Op) (nodes : List Nat)
+    (sch : List Entry) : Obs :=
+  obsOf R (run V R (initCfgN c s p ops nodes) sch)
 
 end Tunnox.C14
